@@ -32,6 +32,13 @@ type c09Case struct {
 const c09Shapes = 19
 const c09RootKinds = 7
 
+// c09Sep spells the bar of a union by the type's number: blanks around it are optional.
+func c09Union(self int, names ...string) *model.Node {
+	n := model.Ref(names...)
+	n.RefSep = []string{"", "|", "| ", " |", "\t|  "}[self%5]
+	return n
+}
+
 func c09Shape(k int, self int, b, c string) (*model.Node, int) {
 	q := fmt.Sprintf("q%d", self)
 	switch k {
@@ -44,11 +51,11 @@ func c09Shape(k int, self int, b, c string) (*model.Node, int) {
 	case 3:
 		return model.Obj(model.P("p", model.Arr(model.Ref(b)))), 1
 	case 4:
-		return model.Obj(model.P("p", model.Ref(b, c))), 2
+		return model.Obj(model.P("p", c09Union(self, b, c))), 2
 	case 5:
 		return model.Ref(b), 1
 	case 6:
-		return model.Ref(b, c), 2
+		return c09Union(self+1, b, c), 2
 	case 7:
 		return model.Obj(model.P(q, model.Int("1"))).With(model.RAllOf(b)), 1
 	case 8:
@@ -153,7 +160,7 @@ func c09Build(n int, bodies []c09Body, rootKind int) *model.Schema {
 			s.Root = model.Obj(model.P("a", model.Ref("@t0")), model.P("b", model.Ref("@t0")))
 		}
 	case 3:
-		s.Root = model.Obj(model.P("x", model.Ref("@t0", fmt.Sprintf("@t%d", n-1))))
+		s.Root = model.Obj(model.P("x", c09Union(n, "@t0", fmt.Sprintf("@t%d", n-1))))
 		if n == 1 {
 			s.Root = model.Obj(model.PShort("@k", model.Ref("@t0")))
 		}
